@@ -73,6 +73,7 @@ type Profile struct {
 	EqualDatesPct       int
 	RemapAny            bool // remap to prerequisite kinds even if they have no weight
 	PopulatedPct        int  // percentage of configurations whose genesis already holds >100 classes / projects / issuers / creators
+	GasSqueezePct       int  // percentage of deliveries made with a gas limit around what the message needs
 	VestingPct          int  // percentage of configurations in which user account 3 is a vesting account with locked coins
 	HostilePct          int  // percentage of genesis draws allowed to be feature-hostile (fee > funds, empty allowlist)
 	Hashers             []HasherSpec
